@@ -15,8 +15,8 @@ CFG = {
                   "re-entry bounded by fuel under the assumption that a replacement decodes as the requested type. I/O failures: C12; "
                   "permissions/symlinks inside layers: C11.",
     "shrink": [(1, ";")],
-    "rule": "exhaustive: all histories of length <=2 (quick) / <=3 (thorough) over one layer name and a 24-operation alphabet (cached x metadata "
-            "type x callback decisions incl. failure, uncached, write metadata/env/SBOM/exec.d/file, restore); directed: populate-restore-request "
+    "rule": "exhaustive: all histories of length <=2 (quick) / <=3 (thorough) over one layer name and a 25-operation alphabet (cached x metadata "
+            "type x callback decisions incl. failure, uncached, write metadata/env/SBOM/exec.d/file, a metadata write with a value TOML cannot encode (rejected: must change nothing), restore); directed: populate-restore-request "
             "chains for every flag combination and callback decision; 'directed-dotted': two-layer histories over every ordered pair drawn from 11 "
             "name universes (dotted prefix a/a.tools/a.sbom, a/a.b/a.b.c, another layer's file stem a.sbom.cdx / a.toml.x, case a/A, one edit a/ab/a-b, "
             "blanks-punctuation-digits-non-ASCII, leading/trailing dots, phase-like build-foo/launch.x/store.build, 200-character names); 'twice': the "
